@@ -264,7 +264,11 @@ impl LazyFormatContext {
     ///
     /// A mutex guard containing a reference to the global format context.
     pub fn get(&self) -> std::sync::MutexGuard<'_, Option<FormatContext>> {
+        #[cfg(feature = "verif_hooks")]
+        crate::verif_trace::record("once-enter", "FMT");
         self.init.call_once(|| {
+            #[cfg(feature = "verif_hooks")]
+            crate::verif_trace::record("init-begin", "FMT");
             bc_components::register_tags();
             let tags_binding = dcbor::GLOBAL_TAGS.get();
             let tags = tags_binding.as_ref().unwrap();
@@ -291,10 +295,25 @@ impl LazyFormatContext {
                 #[cfg(feature = "expression")] Some(parameters)
             );
             *self.data.lock().unwrap() = Some(context);
+            #[cfg(feature = "verif_hooks")]
+            crate::verif_trace::record("init-end", "FMT");
         });
         // A panic in a caller that held the guard must not make the registry
         // unusable for everyone else: recover the guard from a poisoned lock.
+        #[cfg(feature = "verif_hooks")]
+        {
+            let guard = self.data.lock().unwrap_or_else(std::sync::PoisonError::into_inner);
+            crate::verif_trace::record("locked", "FMT");
+            return guard;
+        }
+        #[allow(unreachable_code)]
         self.data.lock().unwrap_or_else(std::sync::PoisonError::into_inner)
+    }
+
+    #[cfg(feature = "verif_hooks")]
+    #[doc(hidden)]
+    pub fn verif_is_locked(&self) -> bool {
+        self.data.try_lock().is_err()
     }
 }
 
